@@ -24,6 +24,8 @@ func byteTerm(t *pt, idx int) *pt {
 			fmt.Sscanf(t.s[2*idx:2*idx+2], "%02x", &b)
 			return pC(int64(b))
 		}
+	case "sub":
+		return byteTerm(t.args[0], t.k+idx)
 	case "cat":
 		at := 0
 		for _, a := range t.args {
@@ -61,7 +63,7 @@ func (d *protoDom) nilCompare(x *ssa.BinOp, a, b sVal) (sVal, bool) {
 	switch v := other.(type) {
 	case pErr:
 		return sBool{v.nonnil == (x.Op == token.NEQ)}, true
-	case pObj, pBytes, sPadSlice:
+	case pObj, pBytes, sPadSlice, gPtr, gArr, gRecv, gCipher:
 		return sBool{x.Op == token.NEQ}, true
 	case pReader:
 		c := pCond{raw: "rand==nil"}
@@ -122,6 +124,9 @@ func (d *protoDom) sliceTerm(st *sState, t *pt, lo, hi int) (*pt, bool) {
 // protoStep handles the instructions whose operands are protocol values; returns true when handled
 func (d *protoDom) step(st *sState, in ssa.Instruction) bool {
 	e := d.e
+	if d.glue && d.glueStep(st, in) {
+		return true
+	}
 	switch x := in.(type) {
 	case *ssa.Alloc:
 		elemT := x.Type().Underlying().(*types.Pointer).Elem()
@@ -315,6 +320,11 @@ func padPattern(t *pt, k int) *pt {
 // builtin functions on protocol values
 func (d *protoDom) builtin(st *sState, name string, call *ssa.Call, args []sVal) (sVal, bool) {
 	e := d.e
+	if d.glue {
+		if r, ok := d.glueBuiltin(st, name, call, args); ok {
+			return r, true
+		}
+	}
 	pos := e.p.InstrPos(call)
 	switch name {
 	case "len":
@@ -462,6 +472,21 @@ func (d *protoDom) assumeCond(st *sState, c pCond, outcome bool) {
 		op = negOp[op]
 	}
 	st.addFact(pFact{a: a, op: op, b: b})
+	// needExpand(array, asked) is 0 exactly when the spare capacity suffices (NEED-EXPAND rule of the assembler side)
+	for _, pr := range [][2]*pt{{a, b}, {b, a}} {
+		x, k := pr[0], pr[1]
+		if x.op == "needexp" && k.op == "c" {
+			spare := pAdd(x.args[1], pNeg(x.args[0]))
+			isZero := (op == token.EQL && k.n.Sign() == 0) || (op == token.NEQ && k.n.Cmp(big.NewInt(1)) == 0) || (op == token.LSS && k.n.Cmp(big.NewInt(1)) == 0) || (op == token.LEQ && k.n.Sign() == 0)
+			isOne := (op == token.NEQ && k.n.Sign() == 0) || (op == token.EQL && k.n.Cmp(big.NewInt(1)) == 0) || (op == token.GTR && k.n.Sign() == 0) || (op == token.GEQ && k.n.Cmp(big.NewInt(1)) == 0)
+			if isZero {
+				st.addFact(pFact{a: spare, op: token.GEQ, b: x.args[2]})
+			}
+			if isOne {
+				st.addFact(pFact{a: spare, op: token.LSS, b: x.args[2]})
+			}
+		}
+	}
 }
 
 func protoCallName(p *Prog, call *ssa.Call) (string, []ssa.Value) {
